@@ -82,7 +82,9 @@ def do_op(cl, ev, default_noreply, variant, kind="client"):
     eff_default = False if op in NOREPLY_DEFAULT_FALSE else default_noreply
     kw = {}
     if not (nr == eff_default and variant % 2 == 0):
-        kw["noreply"] = nr          # otherwise rely on the documented default
+        kw["noreply"] = nr          # otherwise rely on the documented default ...
+    elif variant % 4 == 0 and (op not in NOREPLY_DEFAULT_FALSE or op == "cas"):
+        kw["noreply"] = None        # ... or say so explicitly (None = "use the default"; for cas: falsy = wait for the reply)
     key = k if variant % 3 else k.encode()     # str and bytes keys
     keymap = {key: k}
     try:
@@ -204,7 +206,8 @@ def replay_history(kind, hist, variant, extra=None, dn=None, prefix=None, **stac
     return {"h": {"now": START}, "ev": out, "variant": variant, "kind": kind, "net": net}
 
 
-EXTRA_OPS = {"set-strval", "set-intval", "set-ukey", "get-ukey", "set-flags", "touch-kw", "get-many-empty", "gat-kw"}
+EXTRA_OPS = {"set-strval", "set-intval", "set-ukey", "get-ukey", "set-flags", "touch-kw", "get-many-empty", "gat-kw",
+             "set-empty", "getitem-empty", "setitem", "getitem", "delitem", "getitem-miss", "set-none", "get-none"}
 
 
 def do_extra(cl, ev, kind):
@@ -227,6 +230,24 @@ def do_extra(cl, ev, kind):
             r = cl.gat("a", expire=3, default=DFLT)
         elif op == "get-many-empty":
             r = cl.get_many([])
+        elif op == "set-empty":
+            r = cl.set("ev", b"", noreply=False)
+        elif op == "getitem-empty":
+            r = cl["ev"]
+        elif op == "setitem":
+            cl["it"] = b"item"
+            r = None
+        elif op == "getitem":
+            r = cl["it"]
+        elif op == "delitem":
+            del cl["it"]
+            r = None
+        elif op == "getitem-miss":
+            r = cl["never-set"]
+        elif op == "set-none":
+            r = cl.set("nn", None, noreply=False)
+        elif op == "get-none":
+            r = cl.get("nn", default=DFLT)
         else:
             raise ValueError(op)
     except Exception as e:   # noqa
@@ -315,3 +336,31 @@ def resolve_dynamic(ev, last_cas):
     if ev.get("exp") == "abs":
         ev["exp"] = int(vclock.now) + 2
     return ev
+
+
+def probe_histories():
+    """Curated multi-step histories for semantics that need a specific sequence (always run, never sampled):
+    touch-like operations changing an expiry followed by the clock passing the old one; counters reaching 0;
+    empty values; cas on a vanished key; noreply stores whose effect shows later."""
+    V1, VX, V0, VE = [49], [120], [48], []
+    def ev(op, k="a", v=(), exp=0, nr=False, cas=0, delta=0, keys=(), items=()):
+        return {"e": "op", "op": op, "k": k, "v": list(v), "exp": exp, "nr": nr, "cas": cas, "delta": delta,
+                "keys": list(keys), "items": [list(x) for x in items]}
+    T = lambda d: {"e": "tick", "d": d}
+    out = []
+    for first in (0, 2):
+        for op in ("touch", "gat", "gats"):
+            for newexp in (0, 5, -1, 1):
+                out.append([ev("set", v=V1, exp=first), ev(op, exp=newexp), T(3), ev("get"), ev("gets"), T(3), ev("get"),
+                            ev("incr", delta=1), ev("get_many", k="", keys=["a", "b"])])
+    for nr in (False, True):
+        out.append([ev("set", v=V1, nr=nr), ev("decr", delta=1), ev("get"), ev("decr", delta=1), ev("incr", delta=0), ev("get")])
+        out.append([ev("set", v=V0, nr=nr), ev("incr", delta=0), ev("decr", delta=5), ev("gets")])
+        out.append([ev("set", v=VE, nr=nr), ev("get"), ev("gets"), ev("get_many", k="", keys=["a"]), ev("append", v=VE), ev("get")])
+        out.append([ev("set", v=VX, nr=nr), ev("gets"), ev("delete"), ev("cas", v=V1, cas=("last", "a")), ev("get"),
+                    ev("add", v=V1, nr=nr), ev("cas", v=VX, cas=("last", "a")), ev("cas", v=VX, cas=1, nr=nr), ev("get")])
+        out.append([ev("set", v=V1, exp=2, nr=nr), T(1), ev("gets"), T(2), ev("cas", v=VX, cas=("last", "a")), ev("get"), ev("touch", exp=5),
+                    ev("replace", v=VX, nr=nr), ev("prepend", v=V1, nr=nr), ev("get")])
+        out.append([ev("set_many", k="", items=[["a", V1], ["b", VX]], exp=2, nr=nr), ev("get_many", k="", keys=["b", "a"]), T(3),
+                    ev("get_many", k="", keys=["a", "b"]), ev("delete_many", k="", keys=["a", "b"], nr=nr), ev("flush_all", k="", nr=nr)])
+    return out
